@@ -1295,4 +1295,103 @@ theorem splitGaps_mem (ps : List Piece) : ∀ g ∈ splitGaps ps, ∀ p ∈ g, p
     · rename_i hg
       exact absurd hg (splitGaps_ne_nil ps)
 
+/-! ### The one-directional relation used for "horizontal again" -/
+
+/-- `b` is `a` after a rewrite that keeps the trimmed text and introduces no newline. -/
+def CommentKept (a b : Option (List Char)) : Prop :=
+  match a, b with
+  | none, none => True
+  | some c, some c' => trim c' = trim c ∧ (hasNewline c = false → hasNewline c' = false)
+  | _, _ => False
+
+def ItemKept (a b : ListItem) : Prop :=
+  b.item = a.item ∧ CommentKept a.preComment b.preComment ∧ CommentKept a.postComment b.postComment
+
+theorem commentKept_facts {a b : Option (List Char)} (h : CommentKept a b) :
+    commentLen b = commentLen a ∧ (optAny hasNewline a = false → optAny hasNewline b = false) ∧
+      optAny startsWithSlashes b = optAny startsWithSlashes a := by
+  unfold CommentKept at h
+  cases a <;> cases b <;> simp only at h
+  · simp
+  · rename_i c c'
+    obtain ⟨h1, h2⟩ := h
+    refine ⟨by simp [commentLen, h1], h2, ?_⟩
+    simp only [optAny]
+    rw [← startsWithSlashes_trim c', ← startsWithSlashes_trim c, h1]
+
+theorem itemKept_facts {a b : ListItem} (h : ItemKept a b) :
+    totalItemWidth b = totalItemWidth a ∧ (a.isMultiline = false → b.isMultiline = false) ∧
+      b.hasSingleLineComment = a.hasSingleLineComment := by
+  obtain ⟨hi, hp, hq⟩ := h
+  obtain ⟨p1, p2, p3⟩ := commentKept_facts hp
+  obtain ⟨q1, q2, q3⟩ := commentKept_facts hq
+  refine ⟨?_, ?_, ?_⟩
+  · simp [totalItemWidth, p1, q1, hi]
+  · simp only [ListItem.isMultiline, ListItem.innerAsRef, hi, Bool.or_eq_false_iff]
+    rintro ⟨⟨h1, h2⟩, h3⟩
+    exact ⟨⟨h1, p2 h2⟩, q2 h3⟩
+  · simp only [ListItem.hasSingleLineComment, p3, q3]
+
+theorem forall2_kept {items items' : List ListItem} (h : Forall2 ItemKept items items') :
+    items'.length = items.length ∧ items'.map totalItemWidth = items.map totalItemWidth ∧
+      (items.any ListItem.isMultiline = false → items'.any ListItem.isMultiline = false) ∧
+      items'.any ListItem.hasSingleLineComment = items.any ListItem.hasSingleLineComment := by
+  induction h with
+  | nil => simp
+  | cons hab _ ih =>
+    obtain ⟨h1, h2, h3⟩ := itemKept_facts hab
+    obtain ⟨i1, i2, i3, i4⟩ := ih
+    refine ⟨by simp [i1], by simp [h1, i2], ?_, by simp [h3, i4]⟩
+    simp only [List.any_cons, Bool.or_eq_false_iff]
+    rintro ⟨ha, hr⟩
+    exact ⟨h2 ha, i3 hr⟩
+
+theorem trimEnd_idem (s : List Char) : trimEnd (trimEnd s) = trimEnd s := by
+  induction s with
+  | nil => rfl
+  | cons c cs ih =>
+    simp only [trimEnd]
+    split
+    · rfl
+    · rename_i h
+      simp only [trimEnd, ih]
+      simp [h]
+
+theorem trimStart_trim (c : List Char) : trimStart (trim c) = trim c := by
+  unfold trim
+  have : ∀ s : List Char, (∀ x, s.head? = some x → isWhitespace x = false) →
+      trimStart (trimEnd s) = trimEnd s := by
+    intro s hs
+    cases s with
+    | nil => rfl
+    | cons x xs =>
+      have hx := hs x rfl
+      simp only [trimEnd]
+      split
+      · rfl
+      · simp [trimStart, hx]
+  apply this
+  intro x hx
+  simp only [trimStart] at hx
+  cases hd : List.dropWhile isWhitespace c with
+  | nil => simp [hd] at hx
+  | cons y ys =>
+    simp only [hd, List.head?_cons, Option.some.injEq] at hx
+    subst hx
+    exact dropWhile_head_not c _ ys hd
+
+theorem trim_idem (c : List Char) : trim (trim c) = trim c := by
+  have h := trimStart_trim c
+  unfold trim at h ⊢
+  rw [h, trimEnd_idem]
+
+theorem hasNewline_trim (c : List Char) (h : hasNewline c = false) : hasNewline (trim c) = false := by
+  cases h' : hasNewline (trim c) with
+  | false => rfl
+  | true =>
+    simp only [hasNewline, List.contains_eq_mem, decide_eq_true_eq] at h'
+    have h1 : '\n' ∈ trimStart c := (trimEnd_prefix (trimStart c)).subset h'
+    have h2 : '\n' ∈ c := (List.dropWhile_suffix isWhitespace).subset h1
+    simp [hasNewline, h2] at h
+
 end RF.Lemmas.Lists
